@@ -256,6 +256,8 @@ def main(argv=None):
     for key, c in reg.contracts.items():
         if c.trusted or c.abstract_only:
             continue
+        if "<locals>" in key and c.inline and c.setup is None:
+            continue  # a nested function carrying only loop invariants: verified inline, as part of its enclosing function's job
         if a.only and a.only not in key:
             continue
         jobs.append((prop, "contract", key, a.tier, src, regions_by_target.get(key)))
